@@ -39,7 +39,8 @@ RULE = ("structures: 1-8 atoms on distinct sites of an 8x8x8 fractional grid (+ 
         "output only), every term kind, extra columns on any subset of {atom, bond, angle, dihedral}, duplicate elements "
         "across types, dyadic and generic charges, fractional and Cartesian output; hand-written CIF texts with s.u. "
         "parentheses, Cartesian tags, both tag families, P1 / non-P1 / missing H-M items; random strings for the s.u. "
-        "stripper; plus the corpus replays and small streams of the six known-finding classes (impropers with extra dihedral "
+        "stripper; hand-written numbers also in exponent notation (e/E, signs, with s.u.); large structures with >= 1001 atoms "
+        "of a two-letter element (thorough: 10050 of a one-letter element) and terms on the highest-numbered atoms; plus the corpus replays and small streams of the six known-finding classes (impropers with extra dihedral "
         "columns, extra improper columns, inexact cells re-written, boundary atoms in inexact cells, Cartesian output of a "
         "re-oriented cell, upper-case extra data names). OUT OF DOMAIN, not generated: element names ending in a digit (no "
         "such key in ATOMIC_MASSES, such a structure cannot be re-read at all; theorem label_collision shows what would "
@@ -585,6 +586,20 @@ def first_diff(t1, t2):
 def gen_handwritten(rng):
     """a CIF text written by hand (not by the code under test) + what the property expects from reading it"""
     kind = rng.choice(["su-fract", "su-fract", "cartn", "both", "su-cartn"])
+    # number style: plain decimals, or legal CIF exponent notation (upper / lower case E, explicit signs)
+    style = rng.choice(["plain", "plain", "exp", "exp", "mixed"])
+    def num(v, dec):
+        st = style if style != "mixed" else rng.choice(["plain", "exp"])
+        if st == "plain":
+            return "%.*f" % (dec, v)
+        t = "%.*e" % (rng.randint(dec, dec + 2), float("%.*f" % (dec, v)))      # same value, e.g. 1.2500e+01
+        if rng.random() < 0.5:
+            t = t.replace("e", "E")
+        if rng.random() < 0.3:
+            t = t.replace("e+", "e").replace("E+", "E")                         # 1.25e01
+        if v >= 0 and rng.random() < 0.2:
+            t = "+" + t
+        return t
     cellkind = rng.choice(["ortho", "tri"])
     a, b, c = [round(rng.uniform(6, 14), 3) for _ in range(3)]
     al, be, ga = (90.0, 90.0, 90.0) if cellkind == "ortho" else tuple(round(rng.uniform(70, 110), 2) for _ in range(3))
@@ -601,7 +616,7 @@ def gen_handwritten(rng):
     lines = ["data_hand", ""]
     if hm is not None:
         lines.append("_symmetry_space_group_name_H-M  %s" % hm)
-    cellstr = ["%.3f%s" % (a, su()), "%.3f%s" % (b, su()), "%.3f%s" % (c, su()), "%.2f%s" % (al, su()), "%.2f%s" % (be, su()), "%.2f%s" % (ga, su())]
+    cellstr = [num(a, 3) + su(), num(b, 3) + su(), num(c, 3) + su(), num(al, 2) + su(), num(be, 2) + su(), num(ga, 2) + su()]
     for t, v in zip(["_cell_length_a", "_cell_length_b", "_cell_length_c", "_cell_angle_alpha", "_cell_angle_beta", "_cell_angle_gamma"], cellstr):
         lines.append("%s  %s" % (t, v))
     lines += ["loop_", "_atom_site_label", "_atom_site_type_symbol"]
@@ -609,8 +624,8 @@ def gen_handwritten(rng):
     for s in sites:
         g = [s % 8, (s // 8) % 8, s // 64]
         f = [g[k] / 8.0 + rng.randint(1, 600) / 10000.0 + rng.choice([0, 0, 0, 1, -1, 2]) for k in range(3)]
-        fr.append(["%.4f" % v for v in f])
-        ca.append(["%.3f" % rng.uniform(-5, 20) for _ in range(3)])
+        fr.append([num(v, 4) for v in f])
+        ca.append([num(rng.uniform(-5, 20), 3) for _ in range(3)])
     withsu = kind.startswith("su")
     if kind in ("su-fract", "both"):
         lines += ["_atom_site_fract_x", "_atom_site_fract_y", "_atom_site_fract_z"]
@@ -640,7 +655,7 @@ def gen_handwritten(rng):
     exp = {"elements": els, "cellpar": [strip(s) for s in cellstr], "bonds": bonds,
            "cartn": [[strip(v) for v in r] for r in rows_c] if rows_c else None,
            "fract": [[strip(v) for v in r] for r in rows_f] if rows_f else None}
-    return {"op": "handwritten", "kind": kind, "text": text, "expect": exp}
+    return {"op": "handwritten", "kind": kind, "style": style, "text": text, "expect": exp}
 
 
 def oracle_handwritten(inp, with_ase=True):
@@ -931,6 +946,59 @@ def known_cases(ctx):
     return out
 
 
+def gen_large(rng, n_main, elem_main, others, cellkind="ortho"):
+    """a LARGE structure: `n_main` atoms of one element (labels up to elem_main+str(n_main)) and a few others, on a
+    g x g x g fractional grid inside the cell, no extra columns, a handful of terms on the HIGHEST-numbered atoms"""
+    n = n_main + len(others)
+    g = 1
+    while g ** 3 < n:
+        g += 1
+    L = 4 * g
+    cell = [[F(L), 0, 0], [0, F(L + 2), 0], [0, 0, F(L + 4)]] if cellkind == "ortho" else \
+        [[F(L), 0, 0], [F(3), F(L + 2), 0], [F(-2), F(5), F(L + 4)]]
+    sites = rng.sample(range(g ** 3), n)
+    els = [elem_main] * n_main + list(others)
+    order = list(range(n))
+    # the others are interleaved near the front so that the last atoms are the high-numbered ones of the main element
+    for k in range(len(others)):
+        order.insert(rng.randint(0, 20), order.pop())
+    types = list(dict.fromkeys([elem_main] + list(others)))
+    M = gen.masses()
+    atoms = []
+    for idx in order:
+        s_ = sites[idx]
+        f = [Fraction(2 * (s_ % g) + 1, 2 * g), Fraction(2 * ((s_ // g) % g) + 1, 2 * g), Fraction(2 * (s_ // (g * g)) + 1, 2 * g)]
+        pos = [sum(f[k] * cell[k][j] for k in range(3)) for j in range(3)]
+        atoms.append({"ty": types.index(els[idx]), "pos": [core.q(F(float(v))) for v in pos], "q": "0", "g": 0, "x": []})
+    j = {"cell": [[core.q(v) for v in row] for row in cell], "atoms": atoms,
+         "terms": {k: [] for k in KINDS}, "types": {k: [] for k in KINDS}, "xlabels": {k: [] for k in KINDS + ["atom"]}}
+    j["types"].update(elem=types, label=types, mass=[core.q(M[e]) for e in types], pair=[])
+    hi = n - 1
+    j["terms"]["bond"] = [{"a": [hi, hi - 1], "ty": 0, "x": []}, {"a": [hi - 2, 5], "ty": 0, "x": []},
+                          {"a": [rng.randint(n - 90, hi), rng.randint(0, 50)], "ty": 0, "x": []}]
+    j["terms"]["angle"] = [{"a": [hi, hi - 3, 0], "ty": 0, "x": []}, {"a": [hi - 50, hi - 1, hi - 7], "ty": 0, "x": []}]
+    j["terms"]["dihedral"] = [{"a": [hi - 4, 1, hi - 60, hi], "ty": 0, "x": []}]
+    j["terms"]["improper"] = [{"a": [2, hi - 5, hi - 11, 3], "ty": 0, "x": []}]
+    return j
+
+
+LARGE_TIE_LIMIT = 2000      # above this many atoms the Lean interpreter is too slow: oracle only
+
+
+def large_cases(ctx):
+    """labels with 4+ digit counters: >= 1001 atoms of a two-letter element; thorough: ~10050 of a one-letter element"""
+    rng = ctx.rng
+    out = []
+    for k in range(ctx.n(2, 5)):
+        aj = gen_large(rng, rng.randint(1001, 1150), rng.choice(["Zn", "Zr", "Cu"]), ["C", "H", "O"][:rng.randint(1, 3)],
+                       cellkind="ortho" if k % 2 == 0 else "tri")
+        out.append({"op": "roundtrip", "a": aj, "fract": k % 3 != 2, "stream": "large", "cellkind": "large", "placement": "inside"})
+    if not ctx.quick():
+        aj = gen_large(rng, 10050, "C", ["O", "N"])
+        out.append({"op": "roundtrip", "a": aj, "fract": True, "stream": "large", "cellkind": "large", "placement": "inside"})
+    return out
+
+
 def tiny_negative_case():
     """a fractional coordinate of -1e-20: float `% 1.0` gives the boundary image 1.0 (accepted: closed interval)"""
     text = ("data_x\n_symmetry_space_group_name_H-M  'P 1'\n_cell_length_a 10\n_cell_length_b 11\n_cell_length_c 12\n"
@@ -968,14 +1036,15 @@ def check_case(ctx, inp, ops, pending, oracle_only=False):
         for k in KINDS:
             if aj["terms"][k]:
                 ctx.count("terms:" + k)
-        bad, info = oracle_roundtrip(aj, fract)
+        big = len(aj["atoms"]) > LARGE_TIE_LIMIT
+        bad, info = oracle_roundtrip(aj, fract, with_ase=not big)
         if "block" in info:
             bad += oracle_cellpar_strings(aj, info["block"])
         if "in_cell" in info:
             ctx.count("rewrite:" + ("W2==W1" if info["in_cell"] else "W3==W2"))
         for what, tag in bad:
             ctx.fail(what, inp, observed=(info.get("w1") or "")[:1500], required="C15 round trip", tags=[tag] if tag else [])
-        if oracle_only:
+        if oracle_only or big:
             return
         # tie 1: the block the code wrote against the model's saveCif
         a, e = attempt(lambda: core.atoms_from_json(aj))
@@ -996,6 +1065,7 @@ def check_case(ctx, inp, ops, pending, oracle_only=False):
         pending.append(("cif_load", impl, None))
     elif op == "handwritten":
         ctx.count("hand:" + inp["kind"])
+        ctx.count("hand-numbers:" + inp.get("style", "plain"))
         bad, bj = oracle_handwritten(inp)
         for what, tag in bad:
             ctx.fail(what, inp, observed=bj and bj["atoms"], required="C15 reading", tags=[tag] if tag else [])
@@ -1047,11 +1117,13 @@ def all_cases(ctx):
     for s in ["1.234(5)", "((1)2)", "(12(3)x()(4", "0.5(12)(3)", "(7)", "()", "1(2", "1)2("]:
         cases.append({"op": "strip", "s": s})
     cases.append(tiny_negative_case())
-    return corpus_cases() + cases + known_cases(ctx)
+    return corpus_cases() + cases + known_cases(ctx) + large_cases(ctx)
 
 
 def run(ctx, oracle_only=False):
     ctx.rule = RULE
+    ctx.notes.append("large structures (stream 'large', >= 1001 atoms of one element): oracle always; Lean tie only up to %d atoms "
+                     "(the interpreted model's label generation is quadratic), ase.io.read likewise" % LARGE_TIE_LIMIT)
     ctx.notes.append("known findings reproduced on every run (corpus/C15 + small streams): " + ", ".join(KNOWN_TAGS))
     ops, pending = [], []
     for inp in all_cases(ctx):
